@@ -131,6 +131,8 @@ Definition mon_safe (ins : list N) : bool :=
 
 Definition queue_monitor (k : N) (ins : list N) : list N :=
   if k =? 160 then [b2n (mon_safe ins)] else
+  (* kind 159 (C03): after a refused poll [private state unchanged; number of effects] *)
+  if k =? 159 then match ins with [same; nev] => [b2n ((same =? 1) && (nev =? 0))] | _ => [77777] end else
   (* kind 158 (C02): [instants checked; instants at which an entry below the visible index was incomplete] *)
   if k =? 158 then match ins with [checks; viol] => [b2n (viol =? 0)] | _ => [77777] end else
   if k =? 155 then [b2n (mon_notify ins)] else
